@@ -159,6 +159,7 @@ class AntsSpec(Spec):
         ex = ctx.get("ex")
         if ex and "model" in ex:
             ctx["coverage"]["monitor_overflow_lines"] = sum(1 for m in ex["model"] if m.startswith("ok overflow"))
+            ctx["coverage"]["monitor_unchecked_lines"] = sum(1 for m in ex["model"] if m.startswith("ok unchecked"))
         funcs = (ctx.get("facts") or {}).get("funcs", {})
         if not any(k.startswith("ants.") for k in funcs):
             return
@@ -196,6 +197,8 @@ class C07(AntsSpec):
         c = self.crashed(impl)
         if c:
             return c
+        if script.startswith("stress "):
+            return None   # real-scheduler stress line: judged by C08 only
         sc = parse_script(script)
         po = parse_obs(impl)
         if po is None:
@@ -204,10 +207,39 @@ class C07(AntsSpec):
         if len(obs) != len(sc["tasks"]):
             return ("malformed", "task count differs")
         park1 = any(p[0] == 1 for p in sc["parks"])
+        r = self.begin_check(sc, obs)
+        if r:
+            return r
         for k, (t, o) in enumerate(zip(sc["tasks"], obs)):
             r = self.judge(k, t, o, park1, sc["basecancel"])
             if r:
                 return r
+        return None
+
+    @staticmethod
+    def begin_check(sc, obs):
+        """T is measured from the attempt's start. The harness learns an attempt's begin from the deadline of the ctx the
+        handler receives (begin = deadline - T); this begin must be an instant at which a dispatcher was free to run the
+        task: strictly inside the interval (first handler start, Done) of another task a dispatcher is certainly inside
+        that task's run() (handler starts are observed directly, so the interval does not depend on any ctx deadline), and
+        there are only N dispatchers. Otherwise the deadline is earlier than T after the attempt's real start (e.g. time spent in the
+        pending queue was charged to the timeout)."""
+        n = sc["n"]
+        spans = []
+        for j, o in enumerate(obs):
+            if o["kind"] == "acc" and o["invs"] and o["get"] is not None:
+                spans.append((j, min(i["start"] for i in o["invs"]), o["get"][1]))
+        for k, o in enumerate(obs):
+            if o["kind"] != "acc":
+                continue
+            for iv in o["invs"]:
+                b = iv["begin"]
+                busy = [j for (j, lo, hi) in spans if j != k and lo < b < hi]
+                if len(busy) >= n:
+                    return ("deadline-earlier-than-T-after-attempt-start",
+                            "task %d: its handler (started %d, returned %s at %s) got a ctx deadline %d = T after instant %d, but at "
+                            "that instant all %d dispatchers were inside run() of tasks %s, so the attempt started later and had "
+                            "less than T" % (k, iv["start"], iv["pair"], iv["end"], b + sc["tasks"][k]["teff"], b, n, busy[:n]))
         return None
 
     def judge(self, k, t, o, park1, basecancel=None):
@@ -285,7 +317,7 @@ class C07(AntsSpec):
         return None
 
     def nontrivial(self, script, impl):
-        po = parse_obs(impl)
+        po = None if script.startswith("stress ") else parse_obs(impl)
         if po is None:
             return False
         return any(o["kind"] == "dis" or len(o["invs"]) >= 2 or (o["get"] and o["get"][0][1] == "DE") for o in po[0])
